@@ -11,12 +11,15 @@
 (* Property failures are collected in `viol` and printed by the            *)
 (* post-condition; differences on nodes nobody consulted go to `drift`.    *)
 (***************************************************************************)
-EXTENDS IRRules, Json, IOUtils, SequencesExt
+EXTENDS DeriveRules, Json, IOUtils, SequencesExt
 
 Rec == ndJsonDeserialize(IOEnv.TRACE)
 
-VARIABLES l, irAt, case, vouch, lfp, ran, viol, drift, nlook, ncase
-vars == <<l, irAt, case, vouch, lfp, ran, viol, drift, nlook, ncase>>
+VARIABLES l, irAt, case, vouch, lfp, ran, viol, drift, nlook, ncase,
+          aux,    \* has_float / has_destructor facts recomputed by the spec at the start of codegen
+          dviol,  \* derive-decision failures (property C08)
+          ncomp
+vars == <<l, irAt, case, vouch, lfp, ran, viol, drift, nlook, ncase, aux, dviol, ncomp>>
 
 NoVouch == [t \in Traits |-> <<>>]
 
@@ -25,6 +28,7 @@ G == [nodes |-> Rec[irAt].nodes, allow |-> Range(Rec[irAt].allowlisted),
 
 Init == /\ l = 1 /\ irAt = 0 /\ case = "" /\ vouch = NoVouch /\ lfp = <<>>
         /\ ran = {} /\ viol = <<>> /\ drift = <<>> /\ nlook = 0 /\ ncase = 0
+        /\ aux = <<>> /\ dviol = <<>> /\ ncomp = 0
 
 Ev == Rec[l]
 Is(e) == l <= Len(Rec) /\ Ev.ev = e
@@ -34,15 +38,15 @@ B2S(b) == IF b THEN "true" ELSE "false"
 
 Reset == /\ Is("reset")
          /\ case' = Ev.case /\ irAt' = 0 /\ vouch' = NoVouch /\ lfp' = <<>> /\ ran' = {}
-         /\ ncase' = ncase + 1
-         /\ UNCHANGED <<viol, drift, nlook>>
+         /\ ncase' = ncase + 1 /\ aux' = <<>>
+         /\ UNCHANGED <<viol, drift, nlook, dviol, ncomp>>
 
 LoadIR == /\ Is("ir") /\ irAt' = l
-          /\ UNCHANGED <<case, vouch, lfp, ran, viol, drift, nlook, ncase>>
+          /\ UNCHANGED <<case, vouch, lfp, ran, viol, drift, nlook, ncase, aux, dviol, ncomp>>
 
 Vouch == /\ Is("vouch")
          /\ vouch' = [vouch EXCEPT ![Ev.trait] = (Ev.item :> Ev.val) @@ @]
-         /\ UNCHANGED <<irAt, case, lfp, ran, viol, drift, nlook, ncase>>
+         /\ UNCHANGED <<irAt, case, lfp, ran, viol, drift, nlook, ncase, aux, dviol, ncomp>>
 
 Has(name) == name \in DOMAIN lfp
 
@@ -93,7 +97,7 @@ AnDone ==
         /\ drift' = IF diffs = {} THEN drift
                     ELSE Cap(drift, [case |-> case, analysis |-> name,
                                      node |-> CHOOSE n \in diffs : TRUE, count |-> Cardinality(diffs)])
-  /\ UNCHANGED <<irAt, case, vouch, viol, nlook, ncase>>
+  /\ UNCHANGED <<irAt, case, vouch, viol, nlook, ncase, aux, dviol, ncomp>>
 
 (* the value a consumer must have seen                                      *)
 LookupExpected(name, item, param) ==
@@ -131,12 +135,55 @@ Lookup ==
               Cap(viol, [kind |-> "not-least-fixed-point", case |-> case, analysis |-> Ev.name,
                          item |-> Ev.item, got |-> Ev.val, want |-> exp])
             ELSE viol
-  /\ UNCHANGED <<irAt, case, vouch, lfp, ran, drift, ncase>>
+  /\ UNCHANGED <<irAt, case, vouch, lfp, ran, drift, ncase, aux, dviol, ncomp>>
 
-Other == /\ l <= Len(Rec) /\ Ev.ev \notin {"reset", "ir", "vouch", "an_done", "lookup"}
-         /\ UNCHANGED <<irAt, case, vouch, lfp, ran, viol, drift, nlook, ncase>>
+(* start of code generation: the facts the derive decision may not contradict *)
+Phase ==
+  /\ Is("phase") /\ irAt # 0
+  /\ aux' = [hf |-> IF Has("has_float") THEN lfp["has_float"] ELSE HFLfp(G),
+             hd |-> IF Has("has_destructor") THEN lfp["has_destructor"] ELSE HDLfp(G)]
+  /\ UNCHANGED <<irAt, case, vouch, lfp, ran, viol, drift, nlook, ncase, dviol, ncomp>>
 
-Next == /\ (Reset \/ LoadIR \/ Vouch \/ AnDone \/ Lookup \/ Other)
+DCap(s, x) == IF Len(s) < 200 THEN Append(s, x) ELSE s
+Pick(S) == IF S = {} THEN "" ELSE CHOOSE x \in S : TRUE
+
+(* one composite emitted by CompInfo::codegen *)
+CompEv ==
+  /\ Is("comp") /\ irAt # 0 /\ aux # <<>>
+  /\ ncomp' = ncomp + 1
+  /\ LET c == Ev
+         n == c.id
+         r == G.nodes[n]
+         can == [tr \in Traits |-> IF Has(tr) THEN lfp[tr][n] ELSE "No"]
+         tpa == IF Has("type_param_in_array") THEN lfp["type_param_in_array"][n] ELSE FALSE
+         flt == IF Has("has_float") THEN lfp["has_float"][n] ELSE FALSE
+         want == DeriveSet(G.opt, r, can, tpa, flt, c.fwd, c.packed)
+         got == Range(c.derives)
+         bad == got \cap Forbidden(G, n, aux.hf[n], aux.hd[n])
+         v1 == IF bad # {} THEN
+                 <<[kind |-> "forbidden-derive", case |-> case, item |-> c.name, trait |-> Pick(bad),
+                    want |-> "", got |-> ""]>> ELSE <<>>
+         v2 == IF got # want THEN
+                 <<[kind |-> IF want \ got # {} THEN "derive-withheld" ELSE "derive-not-allowed",
+                    case |-> case, item |-> c.name,
+                    trait |-> Pick((want \ got) \cup (got \ want)), want |-> ToJson(want), got |-> ToJson(got)]>>
+               ELSE <<>>
+         v3 == IF c.needs_debug_impl # NeedsDebugImpl(G.opt, r, got)
+                  \/ c.needs_default_impl # NeedsDefaultImpl(G.opt, r, got, c.fwd)
+                  \/ c.needs_partialeq_impl # NeedsPartialEqImpl(G.opt, got, can)
+                  \/ c.needs_clone_impl # ("Copy" \in got /\ "Clone" \notin got)
+               THEN <<[kind |-> "manual-impl-decision", case |-> case, item |-> c.name, trait |-> "",
+                       want |-> "", got |-> ""]>> ELSE <<>>
+     IN dviol' = IF Len(dviol) < 200 THEN dviol \o v1 \o v2 \o v3 ELSE dviol
+  /\ UNCHANGED <<irAt, case, vouch, lfp, ran, viol, drift, nlook, ncase, aux>>
+
+Other == /\ l <= Len(Rec)
+         /\ \/ Ev.ev \notin {"reset", "ir", "vouch", "an_done", "lookup", "phase", "comp"}
+            \/ (Ev.ev \in {"phase", "comp"} /\ irAt = 0)
+            \/ (Ev.ev = "comp" /\ aux = <<>>)
+         /\ UNCHANGED <<irAt, case, vouch, lfp, ran, viol, drift, nlook, ncase, aux, dviol, ncomp>>
+
+Next == /\ (Reset \/ LoadIR \/ Vouch \/ AnDone \/ Lookup \/ Phase \/ CompEv \/ Other)
         /\ l' = l + 1
 
 Spec == Init /\ [][Next]_vars
@@ -151,5 +198,6 @@ Accepted ==
 Done == l = Len(Rec) + 1
 Report == Done => /\ PrintT(<<"VIOL", ToJson(viol)>>)
                   /\ PrintT(<<"DRIFT", ToJson(drift)>>)
-                  /\ PrintT(<<"COUNTS", ToJson([lookups |-> nlook, cases |-> ncase, events |-> Len(Rec)])>>)
+                  /\ PrintT(<<"DVIOL", ToJson(dviol)>>)
+                  /\ PrintT(<<"COUNTS", ToJson([lookups |-> nlook, cases |-> ncase, events |-> Len(Rec), comps |-> ncomp])>>)
 =============================================================================
